@@ -950,8 +950,14 @@ def _expand_super(prog: Program, func: FuncInfo, paths: list[Path], _depth: int 
 
             parent = _dc.replace(parent, bound=concrete)
         for q in paths_of(prog, parent):
-            events = list(p.events) + [tuple(bind(x) if isinstance(x, tuple) and x and isinstance(x[0], str) and x[0] in T._OPS else x for x in e) for e in q.events]
             exit_ = q.exit if len(q.exit) == 1 else (q.exit[0], bind(q.exit[1]))
+            own = list(p.events)
+            if is_helper and q.exit[0] == "return" and len(q.exit) > 1 and q.exit[1] is not None:
+                # the same call may have been tested before it is returned (`x = self._h(v)` / `if x.__class__ is …: return x`):
+                # on this continuation it has the value the helper returns here, wherever the path mentions it
+                val_ = exit_[1]
+                own = [tuple(T.rewrite(y, lambda z, r=r, val_=val_: val_ if z == r else None) if isinstance(y, tuple) and y and isinstance(y[0], str) and y[0] in T._OPS else y for y in e) for e in own]
+            events = own + [tuple(bind(x) if isinstance(x, tuple) and x and isinstance(x[0], str) and x[0] in T._OPS else x for x in e) for e in q.events]
             out.append(Path(events, exit_, dict(p.env)))
     return out
 
@@ -1040,10 +1046,11 @@ def splice_helpers(prog: Program, paths: list[Path], _depth: int = 0, cls=None, 
                 break
         for q in paths_of(prog, fi):
             qev = [tuple(substitute(y, sigma) if is_term(y) else y for y in e) for e in q.events]
-            if q.exit[0] != "return":
+            if q.exit[0] not in ("return", "fall"):
                 out.append(Path(list(p.events[:at]) + qev, q.exit if len(q.exit) == 1 else (q.exit[0], substitute(q.exit[1], sigma)), dict(p.env)))
                 continue
-            r = substitute(q.exit[1], sigma)
+            # (a helper that falls off its end has answered None: the caller goes on)
+            r = substitute(q.exit[1], sigma) if q.exit[0] == "return" and len(q.exit) > 1 and q.exit[1] is not None else ("const", None)
 
             def repl(tm, x=x, r=r):
                 tm2 = T.rewrite(tm, lambda y: r if y == x else None)
